@@ -1,6 +1,7 @@
 package harness
 
 import (
+	"io"
 	"bufio"
 	"bytes"
 	"context"
@@ -110,7 +111,7 @@ func genC04(w *simrt.Choices, tier string, avoid map[string]bool) Case {
 	k.Slash = w.Choose(10) == 9 && !avoid["slash-in-name"]
 	k.EmptyBase = w.Choose(10) == 9 && !avoid["empty-base"]
 	k.DomainCase = w.Choose(6) == 5 && !avoid["domain-case"]
-	k.POP3 = []string{"", "", "", "names", "names", "names", "names", "all"}[w.Choose(8)]
+	k.POP3 = []string{"", "", "", "names", "names", "all", "all", "all"}[w.Choose(8)]
 	if avoid["pop3-naming"] && k.POP3 == "all" {
 		k.POP3 = "names"
 	}
@@ -203,7 +204,7 @@ func (p *c04POP3) multi() ([]byte, error) {
 
 // c04POP3Find logs in as user and looks for a message containing token.
 // outcome: ok | not-found | error
-func c04POP3Find(c *Ctx, name, user, token string) (outcome, detail string) {
+func c04POP3Find(c *Ctx, name, user, token string, del ...bool) (outcome, detail string) {
 	p, err := c04DialPOP3(c, name)
 	if err != nil {
 		return "error", "dial: " + err.Error()
@@ -238,6 +239,18 @@ func c04POP3Find(c *Ctx, name, user, token string) (outcome, detail string) {
 			return "error", fmt.Sprintf("RETR %d: %v", i, err)
 		}
 		found = hasToken(body, token)
+		if found && len(del) > 0 && del[0] {
+			// ... and delete it through this session: DELE, committed by QUIT
+			if rp, err := p.cmd("DELE " + strconv.Itoa(i)); err != nil || !strings.HasPrefix(rp, "+OK") {
+				return "error", fmt.Sprintf("DELE %d answered %q err=%v", i, rp, err)
+			}
+			if rp, err := p.cmd("QUIT"); err != nil || !strings.HasPrefix(rp, "+OK") {
+				return "error", fmt.Sprintf("QUIT after DELE answered %q err=%v", rp, err)
+			}
+			_ = p.conn.SetReadDeadline(time.Now().Add(p.timeout))
+			_, _ = p.br.ReadByte() // wait for the server to close: the deletions are applied by then
+			return "ok", ""
+		}
 	}
 	_, _ = p.cmd("QUIT")
 	if !found {
@@ -656,8 +669,12 @@ func runC04(c *Ctx, cs Case) {
 			}
 		}
 	}
+	deleted := map[int]bool{}
 	if k.POP3 != "" && !c.Failed() {
 		for si, s := range sent {
+			if deleted[si] {
+				continue
+			}
 			kinds, keys := r.keysFor(s, s.box)
 			for ki, kind := range kinds {
 				if k.POP3 == "names" && kind != "model-name" && kind != "reported-name" {
@@ -669,9 +686,35 @@ func runC04(c *Ctx, cs Case) {
 				}
 				lookups++
 				c.Stat("probe.pop3_sessions", 1)
-				oc, detail := c04POP3Find(c, fmt.Sprintf("pop3.%d.%d", si, ki), keys[ki], s.token)
+				// the last spelling tried for a message also deletes it through POP3:
+				// the deletion must reach the mailbox the session was reading
+				last := ki == len(kinds)-1 || (k.POP3 == "names" && kind == "reported-name")
+				oc, detail := c04POP3Find(c, fmt.Sprintf("pop3.%d.%d", si, ki), keys[ki], s.token, last)
 				if oc != "ok" {
 					r.report(s, "pop3", 1, []c04Fail{{"pop3", kind, keys[ki], oc, detail}})
+				} else if last {
+					c.Main.Quiesce()
+					c.Stat("probe.pop3_delete_by_name", 1)
+					ms, err := st.GetMessages(s.box)
+					if err != nil {
+						c.Failf("store-read-error", "%v", err)
+						break
+					}
+					for _, m := range ms {
+						if rd, err := m.Source(); err == nil {
+							b, _ := io.ReadAll(rd)
+							_ = rd.Close()
+							if hasToken(b, s.token) {
+								cls := "pop3/DELE+QUIT-by-" + kind + "->message-still-there"
+								if keys[ki] == s.box {
+									cls = "pop3/DELE+QUIT-by-stored-name->message-still-there"
+								}
+								c.Failf(cls, "mail to <%s> (naming %s) is stored in mailbox %q; a POP3 session logged in as %q (%s) retrieved it, DELE and QUIT were answered +OK, and the message is still in the mailbox",
+									s.rcpt, k.Naming, s.box, keys[ki], kind)
+							}
+						}
+					}
+					deleted[si] = true
 				}
 				if c.Failed() {
 					break
